@@ -111,10 +111,16 @@ pub fn act_flashloan(sim: &mut Sim, ctx: &mut Ctx) -> Option<Tx> {
             sim.stats.fault("tx_flashloan_missing_end");
         }
         2 => {
-            // end belongs to another account
+            // end belongs to another account; sometimes the started account is merely *mentioned*
+            // among the end's remaining accounts
             if let Some((oui, oma)) = us.iter().find(|(x, _)| *x != ui) {
                 let n = ixs.len();
-                ixs[n - 1] = ix::end_flashloan(*oma, ctx.world.users[*oui].authority, vec![]);
+                let mut rem = if ctx.rng.chance(1, 2) { risk_metas(&sim.store, oma, None, None) } else { vec![] };
+                if ctx.rng.chance(2, 3) {
+                    rem.push(ix::ro(ma));
+                    sim.stats.fault("tx_flashloan_end_other_account_mentions_started_one");
+                }
+                ixs[n - 1] = ix::end_flashloan(*oma, ctx.world.users[*oui].authority, rem);
                 sim.stats.fault("tx_flashloan_end_other_account");
             }
         }
